@@ -43,6 +43,7 @@ deriving Repr, DecidableEq
 
 inductive Err where
   | value | key | index | attr | fuel
+  | noneVal     -- not an exception: a Computable whose evaluation failed earlier is read and yields `None`
 deriving Repr, DecidableEq, Inhabited
 
 structure Reg (H : Type) where
